@@ -257,6 +257,10 @@ def c09_cfgs(tier):
           cfg('c09', 'D2', storefail=1, end_abort=0, ringf=1, ringx=1, append_ms=30, **base),
           cfg('c09', 1, storefail=0, end_abort=0, ringf=2, ringx=8, **{**base, 'n': 2}),
           cfg('c09', 1, camfail=1, end_abort=0, ringf=2, ringx=8, **{**base, 'n': 2})]
+    # the camera fails to report its shape (the call the source makes before every frame)
+    for k in (0, 1, 2):
+        for end in (0, 1):
+            q.append(cfg('c09', 'D2', shapefail=k, end_abort=end, ringf=2, ringx=8, **base))
     # averaging: two rings in series; slow storage fails while the filter is asleep on the full sink ring and the source on the full filter ring
     for end in (0, 1):
         q.append(cfg('c09', 'D2', storefail=0, end_abort=end, avg=2, ringf=1, ringx=1, fringf=1, fringx=1, append_ms=60, wait_ms=40, exposure=4, n=12))
@@ -333,7 +337,7 @@ def c08_cfgs(tier):
                                    'FsAS', 'FswAS', 'AsFS', 'AswFwS', 'FsS', 'AsRS', 'AsRsS', 'RsS', 'AsRwsS', 'AsRa',
                                    'EswgS', 'Eswwg', 'Esga', 'EswgsS', 'EswSAsS',
                                    'GsS', 'Gsa', 'GsgS', 'GsAsS', 'GswAsS', 'Gs', 'HsS', 'Hsa', 'HsgS', 'HsAsS', 'Hs',
-                                   'JsS', 'Jsa', 'Js', 'JswS', 'Js2sS', 'TsS', 'AsTS', 'AsTsS', 'TsAsS', 'AswTa']
+                                   'KsS', 'Ksa', 'KswgS', 'KswS', 'Ksw', 'KswAsS', 'JsS', 'Jsa', 'Js', 'JswS', 'Js2sS', 'TsS', 'AsTS', 'AsTsS', 'TsAsS', 'AswTa']
         c = [cfg('c08', 'D1', prog=p) for p in progs]
         c += [cfg('c08', 0, prog=p) for p in ('AsS', 'Asa', 'AsBS', 'AsAS', 'AsSsS', 'AsaAsS')]
         # the client acts at the very instant a finite acquisition ends by itself (2 frames of 4.5 ms; 'w' waits 9 ms): the workers' own
